@@ -367,6 +367,34 @@ def primal_check(rec, ret_value, mode, held_objects=(), posthoc=None):
                 add("lmi_violated_at_instance", "sent LMI has min eigenvalue %.3e at returned instance" % me, -me, msc)
     info["worst_ineq"] = worst_ineq
     info["worst_eq"] = worst_eq
+    # (iii') what the user registered on the model or on one of its functions is part of "the constraints": an object that
+    # was registered, never reached the solver and FAILS at the returned instance makes the instance one of another model
+    try:
+        from PEPit.function import Function
+        sent_ids = {id(o) for _k, o, _t in rec["sent"]}
+        owners = [("the model", pep)] + [("function %d" % i, f) for i, f in enumerate(Function.list_of_functions)]
+        for oname, ow in owners:
+            for o in list(getattr(ow, "list_of_psd", [])):
+                if id(o) in sent_ids or not o.shape[0]:
+                    continue
+                info["n_unsent_registered"] = info.get("n_unsent_registered", 0) + 1
+                Mv = np.array([[canon.expr_value(o[i, j], GG, Fv, idx) for j in range(o.shape[1])] for i in range(o.shape[0])])
+                msc = scale * (1.0 + float(np.max(np.abs(Mv))))
+                me = _mineig(Mv)
+                add("registered_lmi_never_sent_and_violated_at_instance",
+                    "an LMI registered on %s never reached the solver and has min eigenvalue %.3e at the returned instance" % (oname, me), -me, msc)
+            for o in list(getattr(ow, "list_of_constraints", [])):
+                if id(o) in sent_ids:
+                    continue
+                info["n_unsent_registered"] = info.get("n_unsent_registered", 0) + 1
+                want = canon.expr_value(o.expression, GG, Fv, idx)
+                csc = scale * (1.0 + sum(abs(float(v)) for v in o.expression.decomposition_dict.values())
+                               if not o.expression.get_is_leaf() else scale)
+                add("registered_constraint_never_sent_and_violated_at_instance",
+                    "a constraint registered on %s never reached the solver and evaluates to %.3e at the returned instance" % (oname, want),
+                    want if o.equality_or_inequality == "inequality" else abs(want), csc)
+    except KeyError:
+        pass        # an object that involves leaves created after the solve has no value at this instance
     # (iv) objective = min metric
     mets = list(pep.list_of_performance_metrics)
     if mets:
